@@ -29,8 +29,8 @@ static const a_cfg_t acfgs[] = {
 };
 #define NACFG ((int) (sizeof(acfgs) / sizeof(acfgs[0])))
 
-enum { D_NONE = 0, D_DELETE, D_DUP, D_SWAP, D_INJECT, D_APPDATA, D_NOFINRECOMP, D_DELETE2, D_NK };
-static const char *dname[] = { "none", "delete", "duplicate", "swap", "inject", "appdata-under-hs-keys", "delete-without-finished-recompute", "delete-two-consecutive" };
+enum { D_NONE = 0, D_DELETE, D_DUP, D_SWAP, D_INJECT, D_APPDATA, D_NOFINRECOMP, D_DELETE2, D_CVSCHEME, D_CVSTALE, D_CVFLIP, D_NK };
+static const char *dname[] = { "none", "delete", "duplicate", "swap", "inject", "appdata-under-hs-keys", "delete-without-finished-recompute", "delete-two-consecutive", "certificateverify-scheme-rewritten", "certificateverify-of-another-handshake", "certificateverify-signature-bit-flipped" };
 static const int inj_types[] = { 0, 1, 2, 4, 5, 8, 11, 13, 15, 20, 24, 254 };
 #define NINJ ((int) (sizeof(inj_types) / sizeof(inj_types[0])))
 typedef struct { int kind, i, t; } dev_t2;
@@ -45,6 +45,8 @@ typedef struct {
     unsigned char first_units[4][400]; int first_len[4]; int nfirst; /* plaintext units preceding the protected flight (SH, CCS) */
     dev_t2 d;
     int hashlen;
+    unsigned char donor_cv[1200]; int donor_cv_len;   /* CertificateVerify of the same flight in ANOTHER handshake (other randoms) */
+    int seed;
 } a_ctx_t;
 
 static int hs_type_name(int t) { return t; }
@@ -58,7 +60,7 @@ static int a_setup(a_ctx_t *g)
     int i, n, sl, it, k, sender = 1 - g->victim;
     uint16_t suite = ac->suite ? ac->suite : TLS_AES_128_GCM_SHA256;
     memset(&c, 0, sizeof(c));
-    c.ver = V_TLS13; c.kx = ac->kx; c.suite = ac->suite; c.client_auth = ac->cauth; c.bogus_psk = ac->bogus_psk;
+    c.ver = V_TLS13; c.kx = ac->kx; c.suite = ac->suite; c.client_auth = ac->cauth; c.bogus_psk = ac->bogus_psk; c.seed = g->seed;
     g->hashlen = suite == TLS_AES_256_GCM_SHA384 ? 48 : 32;
     if (world_init(&g->w, &c) < 0)
     {
@@ -174,6 +176,31 @@ static int a_setup(a_ctx_t *g)
     return 0;
 }
 
+/* a_setup plus the CertificateVerify of the same flight in another handshake (other entropy seed => other randoms, same keys) */
+static int a_setup_full(a_ctx_t *g)
+{
+    static a_ctx_t dn;
+    int i;
+    memset(&dn, 0, sizeof(dn));
+    dn.ci = g->ci; dn.victim = g->victim; dn.seed = 4242;
+    g->donor_cv_len = 0;
+    if (a_setup(&dn) == 0)
+    {
+        for (i = 0; i < dn.nm; i++)
+        {
+            if (dn.m[i].type == 15 && dn.m[i].len <= (int) sizeof(g->donor_cv))
+            {
+                memcpy(g->donor_cv, dn.m[i].p, (size_t) dn.m[i].len);
+                g->donor_cv_len = dn.m[i].len;
+            }
+        }
+    }
+    world_free(&dn.w);
+    buf_free(&dn.tr);
+    g->seed = 0;
+    return a_setup(g);
+}
+
 static void a_run_case(void *ctx, mx_result_t *r)
 {
     a_ctx_t *g = ctx;
@@ -222,6 +249,27 @@ static void a_run_case(void *ctx, mx_result_t *r)
             continue;
         }
         out[no++] = g->m[i];
+        if ((d->kind == D_CVSCHEME || d->kind == D_CVFLIP) && d->i == i && g->m[i].len > 8 && g->m[i].len < 23000)
+        {
+            /* the peer holds the certified key and signed THIS transcript, but names another SignatureScheme / damages the signature */
+            memcpy(store[21], g->m[i].p, (size_t) g->m[i].len);
+            if (d->kind == D_CVSCHEME)
+            {
+                store[21][4] = (unsigned char) (d->t >> 8);
+                store[21][5] = (unsigned char) d->t;
+            }
+            else
+            {
+                store[21][g->m[i].len - 1] ^= 0x01;
+            }
+            out[no - 1].p = store[21];
+        }
+        if (d->kind == D_CVSTALE && d->i == i && g->donor_cv_len > 0)
+        {
+            /* a genuine signature by the certified key - over the transcript of another handshake */
+            out[no - 1].p = g->donor_cv;
+            out[no - 1].len = g->donor_cv_len;
+        }
         if (d->kind == D_DUP && d->i == i)
         {
             out[no++] = g->m[i];
@@ -285,7 +333,7 @@ static void a_run_case(void *ctx, mx_result_t *r)
                 break;
             }
         }
-        legal = (f >= 0 && f + 1 == g->nm);
+        legal = (f >= 0 && f + 1 == g->nm) && d->kind != D_CVSCHEME && d->kind != D_CVSTALE && d->kind != D_CVFLIP;
         for (i = 0; legal && i <= f; i++)
         {
             if (out[i].type != g->m[i].type || out[i].len != g->m[i].len)
@@ -546,7 +594,7 @@ static void run_group(long gi, void *unused)
         memset(&g, 0, sizeof(g));
         g.ci = groups[gi].ci;
         g.victim = groups[gi].victim;
-        if ((rc = a_setup(&g)) != 0)
+        if ((rc = a_setup_full(&g)) != 0)
         {
             mx_result_t r;
             memset(&r, 0, sizeof(r));
@@ -568,6 +616,19 @@ static void run_group(long gi, void *unused)
             FORK(D_DUP, i, 0);
             if (i + 1 < g.nm) FORK(D_SWAP, i, 0);
             if (i + 2 < g.nm) FORK(D_DELETE2, i, 0);
+            if (g.m[i].type == 15)
+            {
+                /* CertificateVerify: proof of possession over THIS transcript with an OFFERED scheme */
+                static const int schemes[] = { 0x0401, 0x0501, 0x0403, 0x0503, 0x0804, 0x0805, 0x0806, 0x0807, 0x0201, 0x0203, 0x0000, 0xffff };
+                int si;
+                int honest = (g.m[i].p[4] << 8) | g.m[i].p[5];
+                for (si = 0; si < (int) (sizeof(schemes) / sizeof(schemes[0])); si++)
+                {
+                    if (schemes[si] != honest) FORK(D_CVSCHEME, i, schemes[si]);
+                }
+                FORK(D_CVFLIP, i, 0);
+                if (g.donor_cv_len > 0) FORK(D_CVSTALE, i, 0);
+            }
         }
         for (i = 0; i <= g.nm; i++)
         {
@@ -651,7 +712,7 @@ int main(int argc, char **argv)
             {
                 return 2;
             }
-            if ((rc = a_setup(&g)) != 0)
+            if ((rc = a_setup_full(&g)) != 0)
             {
                 fprintf(stderr, "setup failed %d\n", rc);
                 return 2;
